@@ -1,15 +1,10 @@
 /-
   Rbgp.Enc.Proofs.Caps — `Capability::encode` / `Capability::decode` round trip (with the FQDN lower-casing)
-  and the capability TLV walk of the OPEN arm, under the u8 side conditions.
+  and the capability TLV walk of the OPEN arm.
 -/
 import Rbgp.Enc.Proofs.Small
 namespace Rbgp.Enc
 open Rbgp.Enc.Spec
-
-theorem mulU8_ok (p : Profile) (a b : Nat) (h : a * b < 256) : mulU8 p a b = .ok (a * b) := by
-  simp [mulU8, h]
-theorem addU8_ok (p : Profile) (a b : Nat) (h : a + b < 256) : addU8 p a b = .ok (a + b) := by
-  simp [addU8, h]
 
 /-- value bytes of a capability -/
 def capValue : Cap → Bytes
@@ -46,81 +41,79 @@ theorem lor_flags (flags time : Nat) (hf : flags < 16) (ht : time < 4096) :
   rw [e] at this
   exact this.symm
 
-theorem cap_encode (p : Profile) (c : Cap) (h : capOk c = true) (hs : (capBytes c).length < 256) :
-    c.encode p = .ok (capBytes c, (capBytes c).length) := by
-  -- it suffices to identify the bytes written
-  have fin : ∀ (b : Bytes), b = capBytes c →
-      (Out.ok (b, b.length % 256) : Out (Bytes × Nat)) = .ok (capBytes c, (capBytes c).length) := by
-    intro b hb; rw [hb, Nat.mod_eq_of_lt hs]
+theorem cap_encode (c : Cap) (h : capOk c = true) :
+    c.encode = .ok (capBytes c, (capBytes c).length) := by
+  -- it suffices to identify the bytes written and to bound their number by code + length + 255
+  have fin : ∀ (b : Bytes), b = capBytes c → (capValue c).length ≤ 255 →
+      (if b.length > 257 then (Out.err : Out (Bytes × Nat)) else .ok (b, b.length)) =
+        .ok (capBytes c, (capBytes c).length) := by
+    intro b hb hv
+    have : ¬ b.length > 257 := by rw [hb]; simp [capBytes]; omega
+    rw [if_neg this, hb]
   cases c with
-  | mp f => exact fin _ (by simp [capBytes, capValue, capCode])
-  | rr => exact fin _ (by simp [capBytes, capValue, capCode])
-  | em => exact fin _ (by simp [capBytes, capValue, capCode])
-  | err => exact fin _ (by simp [capBytes, capValue, capCode])
-  | as4 n => exact fin _ (by simp [capBytes, capValue, capCode])
+  | mp f => simp only [Cap.encode]; exact fin _ (by simp [capBytes, capValue, capCode]) (by simp [capValue])
+  | rr => simp only [Cap.encode]; exact fin _ (by simp [capBytes, capValue, capCode]) (by simp [capValue])
+  | em => simp only [Cap.encode]; exact fin _ (by simp [capBytes, capValue, capCode]) (by simp [capValue])
+  | err => simp only [Cap.encode]; exact fin _ (by simp [capBytes, capValue, capCode]) (by simp [capValue])
+  | as4 n => simp only [Cap.encode]; exact fin _ (by simp [capBytes, capValue, capCode]) (by simp [capValue])
   | enh v =>
       simp only [capOk, Bool.and_eq_true, decide_eq_true_eq] at h
       obtain ⟨_, hl⟩ := h
       have hvl : (capValue (.enh v)).length = v.length * 6 :=
         flatMap_length_const v _ 6 (by intro x _; simp [Fam.u32])
-      have hm : v.length % 256 = v.length := Nat.mod_eq_of_lt (by omega)
-      simp only [Cap.encode, hm, mulU8_ok p _ _ (by omega : v.length * 6 < 256), Out.bind_ok, Out.pure_eq]
-      exact fin _ (by simp only [capBytes, hvl]; rfl)
+      have hm : v.length * 6 % 256 = v.length * 6 := Nat.mod_eq_of_lt (by omega)
+      simp only [Cap.encode, hm]
+      exact fin _ (by simp only [capBytes, hvl]; rfl) (by omega)
   | ap v =>
       simp only [capOk, Bool.and_eq_true, decide_eq_true_eq] at h
       obtain ⟨_, hl⟩ := h
       have hvl : (capValue (.ap v)).length = v.length * 4 :=
         flatMap_length_const v _ 4 (by intro x _; simp)
-      have hm : v.length % 256 = v.length := Nat.mod_eq_of_lt (by omega)
-      simp only [Cap.encode, hm, mulU8_ok p _ _ (by omega : v.length * 4 < 256), Out.bind_ok, Out.pure_eq]
-      exact fin _ (by simp only [capBytes, hvl]; rfl)
+      have hm : v.length * 4 % 256 = v.length * 4 := Nat.mod_eq_of_lt (by omega)
+      simp only [Cap.encode, hm]
+      exact fin _ (by simp only [capBytes, hvl]; rfl) (by omega)
   | llgr v =>
       simp only [capOk, Bool.and_eq_true, decide_eq_true_eq] at h
       obtain ⟨_, hl⟩ := h
       have hvl : (capValue (.llgr v)).length = v.length * 7 :=
         flatMap_length_const v _ 7 (by intro x _; simp)
-      have hm : v.length % 256 = v.length := Nat.mod_eq_of_lt (by omega)
-      simp only [Cap.encode, hm, mulU8_ok p _ _ (by omega : v.length * 7 < 256), Out.bind_ok, Out.pure_eq]
-      exact fin _ (by simp only [capBytes, hvl]; rfl)
+      have hm : v.length * 7 % 256 = v.length * 7 := Nat.mod_eq_of_lt (by omega)
+      simp only [Cap.encode, hm]
+      exact fin _ (by simp only [capBytes, hvl]; rfl) (by omega)
   | gr flags time fams =>
       simp only [capOk, Bool.and_eq_true, decide_eq_true_eq] at h
       obtain ⟨⟨⟨hf, ht⟩, _⟩, hl⟩ := h
       have hvl : (capValue (.gr flags time fams)).length = fams.length * 4 + 2 := by
         simp only [capValue, List.length_append, be16_length]
         rw [flatMap_length_const fams _ 4 (by intro x _; simp)]; omega
-      have hm : fams.length % 256 = fams.length := Nat.mod_eq_of_lt (by omega)
-      simp only [Cap.encode, hm, mulU8_ok p _ _ (by omega : fams.length * 4 < 256), Out.bind_ok,
-        addU8_ok p _ _ (by omega : fams.length * 4 + 2 < 256), Out.pure_eq, lor_flags flags time hf ht]
-      exact fin _ (by simp only [capBytes, hvl]; simp [capValue, capCode])
+      have hm : (fams.length * 4 + 2) % 256 = fams.length * 4 + 2 := Nat.mod_eq_of_lt (by omega)
+      simp only [Cap.encode, hm, lor_flags flags time hf ht]
+      exact fin _ (by simp only [capBytes, hvl]; simp [capValue, capCode]) (by omega)
   | fqdn hh d =>
       simp only [capOk, Bool.and_eq_true, decide_eq_true_eq] at h
       obtain ⟨_, hl⟩ := h
       have hvl : (capValue (.fqdn hh d)).length = 2 + hh.length + d.length := by
         simp [capValue]; omega
-      simp only [Cap.encode, Out.bind_ok, Out.pure_eq]
+      simp only [Cap.encode]
       rw [Nat.mod_eq_of_lt (by omega : 2 + hh.length + d.length < 256), Nat.mod_eq_of_lt (by omega : hh.length < 256),
           Nat.mod_eq_of_lt (by omega : d.length < 256)]
-      exact fin _ (by simp only [capBytes, hvl]; simp [capValue, capCode])
+      exact fin _ (by simp only [capBytes, hvl]; simp [capValue, capCode]) (by omega)
   | unk code bin =>
       simp only [capOk, Bool.and_eq_true, decide_eq_true_eq] at h
       obtain ⟨_, hl⟩ := h
-      simp only [Cap.encode, Out.bind_ok, Out.pure_eq]
+      simp only [Cap.encode]
       rw [Nat.mod_eq_of_lt (by omega : bin.length < 256)]
-      exact fin _ (by simp [capBytes, capValue, capCode])
+      exact fin _ (by simp [capBytes, capValue, capCode]) (by simp [capValue]; omega)
 
-theorem encodeCaps_eq (p : Profile) (caps : List Cap) (acc : Nat) (h : ∀ c ∈ caps, capOk c = true)
-    (hs : acc + (caps.flatMap capBytes).length < 256) :
-    encodeCaps p caps acc = .ok (caps.flatMap capBytes, acc + (caps.flatMap capBytes).length) := by
+theorem encodeCaps_eq (caps : List Cap) (acc : Nat) (h : ∀ c ∈ caps, capOk c = true) :
+    encodeCaps caps acc = .ok (caps.flatMap capBytes, acc + (caps.flatMap capBytes).length) := by
   induction caps generalizing acc with
   | nil => simp [encodeCaps]
   | cons c cs ih =>
-      have hl : (capBytes c).length + (cs.flatMap capBytes).length = ((c :: cs).flatMap capBytes).length := by simp
       simp only [encodeCaps]
-      rw [cap_encode p c (h c (by simp)) (by omega)]
+      rw [cap_encode c (h c (by simp))]
       simp only [Out.bind_ok]
-      rw [addU8_ok p _ _ (by omega)]
-      simp only [Out.bind_ok]
-      rw [ih _ (fun x hx => h x (by simp [hx])) (by omega)]
+      rw [ih _ (fun x hx => h x (by simp [hx]))]
       simp only [Out.bind_ok, Out.pure_eq, List.flatMap_cons, List.length_append]
       congr 2; omega
 
